@@ -47,14 +47,18 @@ def sortStrings (l : List String) : List String := (l.toArray.qsort (· < ·)).t
 def joinSorted (l : List String) : String :=
   if l.isEmpty then "-" else ",".intercalate (sortStrings l)
 
+/-- `name=""` is not rendered: whether an empty benchmark name yields it depends on the previous line
+seen by the same Reader (one-entry name cache), hence on SQLite's row order, which is not modelled. -/
+def emptyName (kv : Bytes × Bytes) : Bool := kv.1 == Bytes.ofString "name" && kv.2.isEmpty
+
 def labelsStr (l : Labels) : String :=
-  ";".intercalate (l.map fun kv => kv.1.toHex ++ ":" ++ kv.2.toHex)
+  ";".intercalate ((l.filter (!emptyName ·)).map fun kv => kv.1.toHex ++ ":" ++ kv.2.toHex)
 
 def recStr (r : Result) : String :=
   "L" ++ labelsStr r.labels ++ "|N" ++ labelsStr r.nameL ++ "|" ++ r.content.toHex
 
 def specRecOf (labels : List (Bytes × Bytes)) (content : Bytes) : String :=
-  ";".intercalate (sortStrings (labels.map fun kv => kv.1.toHex ++ ":" ++ kv.2.toHex)) ++ "|" ++ content.toHex
+  ";".intercalate (sortStrings ((labels.filter (!emptyName ·)).map fun kv => kv.1.toHex ++ ":" ++ kv.2.toHex)) ++ "|" ++ content.toHex
 
 def errTag : QErr → String
   | .missingOp => "!missingop"
